@@ -22,7 +22,7 @@ RULE = (
     "shape x fault plan with <= bound deviations, then probe set;get without faults; non-trivial = >=1 "
     "hard deviation hit the read call; distinct = distinct (stack, shape, deviation kinds, result repr)"
 )
-STACKS = ("client", "pooled", "pooled_idle", "hash1", "hash2", "hash2p", "hash0")
+STACKS = ("client", "pooled", "pooled_idle", "hash1", "hash1d", "hash2", "hash2p", "hash0")
 IDLE = 10
 D, C = "DFLT", "CASD"
 SHAPES = [
@@ -84,7 +84,7 @@ def run_case(ch, stack, serde, warm, shape, preload=True, probe=True):
     prec = []
     if probe and stack != "hash0":
         net.chooser = None  # faultless environment from here on
-        net.clock.advance(2)  # past HashClient's retry_timeout
+        net.clock.advance(61 if stack == "hash1d" else 2)  # past HashClient's retry_timeout (hash1d: dead_timeout)
         for j, op in enumerate((PROBE_SET, PROBE_GET), len(seq) + 1):
             net.call = j
             try:
@@ -172,7 +172,7 @@ def _jobs(tier):
     for stack in STACKS:
         for serde in (False, True):
             for warm in (False, True, "gap"):
-                if warm == "gap" and not (stack.startswith("hash") or stack == "pooled_idle"):
+                if warm == "gap" and (stack == "hash1d" or not (stack.startswith("hash") or stack == "pooled_idle")):
                     continue
                 if stack == "pooled_idle" and warm != "gap":
                     continue
